@@ -1,6 +1,7 @@
 package props
 
 import (
+	"strings"
 	"fmt"
 	"io"
 	"math/rand"
@@ -282,18 +283,21 @@ func (cs *carrierSet) Close() {
 
 func checkC01(e *core.Env) {
 	curEnv = e
-	e.SetRule("seeded scripts (kind, 0..50 messages per direction, hostile message shapes/sizes, handler receive/send interleavings) run on in-process, httpgrpc.Server and HandleServices carriers plus concurrent batches on one channel; distinct = distinct (carrier, script shape, size class) that exchanged >=1 message; each receive is compared with the sender's k-th attempted message (proto.Equal + deterministic bytes), counts compared at successful end; scripts on which the standard transport itself fails the oracle are calibrated out")
+	e.SetRule("seeded scripts (kind, 0..50 messages per direction, hostile message shapes/sizes, handler receive/send interleavings) run on in-process, httpgrpc.Server and HandleServices carriers plus concurrent batches on one channel; the library's schedule points yield or pause at random (seeded); a sixth of the sequential scripts end with an error status (prefix rule), a third of the scripts receive into one re-used message value; in-process unary calls that return on cancellation before the server side looked at the request, after which the caller overwrites it; distinct = distinct (carrier, script shape, size class) that exchanged >=1 message; each receive is compared with the sender's k-th attempted message (proto.Equal + deterministic bytes), counts compared at successful end; scripts on which the standard transport itself fails the oracle are calibrated out")
 	e.Assume("HTTP bidi scripts are half-duplex (client closes send before the handler replies)")
 	e.Assume("equality of sequences is required only when the receiver drained to EOF")
 	cs := stdCarriers()
 	defer cs.Close()
 
 	runOne := func(c *Carrier, sc *Script) {
-		run, ok, dump := execScript(c, sc, nil)
+		var plan *hookPlan
+		run, ok, dump := execScript(c, sc, func(run *Run) { plan = yieldingPlan(run, sc) })
+		hookPlans.Delete(run.ID)
 		if !ok {
 			hangVerdict(e, "C01", cs, c, sc, run, dump)
 			return
 		}
+		e.Distinct("hook_hit_sequences", c.Name+"|"+strings.Join(plan.Hits(), ","))
 		if p := reachProblem(cs, c, sc, run); p != "" {
 			e.Violate(fmt.Sprintf("delivery/%s/%s/never-reached-handler", c.Name, sc.Kind), p, witness(run))
 		}
@@ -312,6 +316,10 @@ func checkC01(e *core.Env) {
 		for ci, c := range cs.list {
 			rr := rand.New(rand.NewSource(r.Int63() + int64(ci)))
 			sc := genDeliveryScript(rr, kind, c.HTTP, true)
+			if rr.Intn(6) == 0 {
+				// a call that ends with an error status: what arrived before is still an intact prefix
+				sc.Ret = Ret{How: "status", Code: 10, Msg: "ends in failure"}
+			}
 			e.Note("%s %s", c.Name, sc.Shape())
 			// calibration on the standard transport
 			ref, ok, _ := execScript(cs.ref, sc, nil)
@@ -399,7 +407,8 @@ func concurrentBatch(e *core.Env, c *Carrier, scripts []*Script) {
 		wg.Add(1)
 		go func(j int, sc *Script) {
 			defer wg.Done()
-			runs[j], oks[j], _ = execScript(c, sc, nil)
+			runs[j], oks[j], _ = execScript(c, sc, func(run *Run) { yieldingPlan(run, sc) })
+			hookPlans.Delete(runs[j].ID)
 		}(j, sc)
 	}
 	wg.Wait()
@@ -431,4 +440,23 @@ func raceC01(e *core.Env) {
 		}
 		concurrentBatch(e, c, scripts)
 	})
+}
+
+// yieldingPlan makes the library's schedule points of one run yield or pause at random (seeded by the script),
+// so that the same script is seen under different interleavings of client, server and transport goroutines.
+func yieldingPlan(run *Run, sc *Script) *hookPlan {
+	installHooks()
+	plan := newHookPlan()
+	plan.yield = rand.New(rand.NewSource(int64(hash64str(run.ID + sc.Shape()))))
+	hookPlans.Store(run.ID, plan)
+	return plan
+}
+
+func hash64str(s string) uint64 {
+	var h uint64 = 14695981039346656037
+	for i := 0; i < len(s); i++ {
+		h ^= uint64(s[i])
+		h *= 1099511628211
+	}
+	return h
 }
